@@ -346,10 +346,20 @@ COSIM = {"stale": cosim_stale, "unknown": cosim_unknown, "throttle": cosim_throt
 def run_adv(seed: int, work: Path, trace_path: Path, *, steps: int = 40, mix: Optional[str] = None,
             with_route: bool = True, with_index: bool = False, world_kwargs: Optional[Dict[str, Any]] = None,
             write_outputs: bool = False, kinds: Optional[List[str]] = None, p_instr: Optional[float] = None,
-            throttle: bool = False, cosim: Optional[List[str]] = None) -> Tuple[Any, tracer.Tracer, Dict[str, Any]]:
+            throttle: bool = False, cosim: Optional[List[str]] = None, resubmit: bool = False) -> Tuple[Any, tracer.Tracer, Dict[str, Any]]:
     """one generated world driven by adversarial generators around (or instead of) the built-in ones"""
     rng = random.Random(seed)
     w = adv.gen_world(rng, n_steps=steps, **(world_kwargs or {}))
+    if resubmit and w["requests"]:
+        # riders who submit their request AGAIN a step or two later, under the same id, from another street corner (while the
+        # first one is usually still waiting): UpdateRequestsFromFile hands the row to add_request_safe (finding F19)
+        rng2 = random.Random(seed * 31 + 7)
+        again = []
+        for r in w["requests"]:
+            if rng2.random() < 0.35:
+                other = rng2.choice(w["requests"])
+                again.append(dict(r, dep=r["dep"] + rng2.choice([1, w["dt"], 2 * w["dt"]]), o=other["o"]))
+        w["requests"] = sorted(w["requests"] + again, key=lambda r: (r["dep"], r["id"]))
     scen = world.write_world(work / f"world{seed}", w)
     rp = world.load(scen, work / "out", write_outputs=write_outputs, suffix=f"s{seed}", lazy=bool(w.get("lazy")))
     if w.get("preload"):
